@@ -212,6 +212,11 @@ def c04_e2e_lines(r, n):
         cases.append((A, es))
     for A, es in cases:
         lines.append(orb_pkt("recv", A, int_fwd(dest), [act(es)], denom=r.choice(["uusdc", "uother"])))
+    # a computation that fails half way (overflow of the running total after valid entries) leaves nothing behind for the next ones
+    for _ in range(3):
+        lines.append(orb_pkt("recv", 10 ** 6, int_fwd(dest), [act([(U[6], "a", 50), (U[7], "b", 100), (good, "a", 2 ** 256 - 1)])]))
+        lines.append(orb_pkt("recv", 1000, int_fwd(dest), [act([(other, "b", 100)])]))
+        lines.append(orb_pkt("recv", 1000, int_fwd(dest), [act([(good, "a", 10)])]))
     return lines
 
 
@@ -1491,6 +1496,21 @@ def pause_targeted(toks):
         lines.append(msg_line("UnpauseCrossChains", AUTHORITY, hx(p), hx(other[0]), hx(c)))
         lines.append("query PausedCrossChains %s nopage" % hx(p))
         lines.append(msg_line("UnpauseCrossChains", AUTHORITY, hx(p), hx(c)))
+        # the two levels nested: an identifier paused while its whole protocol is paused stays paused when the protocol is released,
+        # and the other way round
+        lines.append(msg_line("PauseProtocol", AUTHORITY, hx(p)))
+        lines.append(msg_line("PauseCrossChains", AUTHORITY, hx(p), hx(c)))
+        lines.append("query IsCrossChainPaused %s %s" % (hx(p), hx(c)))
+        lines.append("query PausedCrossChains %s nopage" % hx(p))
+        lines.append(msg_line("UnpauseProtocol", AUTHORITY, hx(p)))
+        lines.append(orb_pkt("recv", 10 ** 6, fwd, None, denom=dn))
+        lines.append(msg_line("PauseProtocol", AUTHORITY, hx(p)))
+        lines.append(msg_line("UnpauseCrossChains", AUTHORITY, hx(p), hx(c)))
+        lines.append("query IsCrossChainPaused %s %s" % (hx(p), hx(c)))
+        lines.append(orb_pkt("recv", 10 ** 6, fwd, None, denom=dn))
+        lines.append(msg_line("UnpauseProtocol", AUTHORITY, hx(p)))
+        lines.append(orb_pkt("recv", 10 ** 6, fwd, None, denom=dn))
+        lines.append("export")
     # actions
     for a in ("ACTION_FEE", "ACTION_SWAP"):
         lines.append(msg_line("PauseAction", AUTHORITY, hx(a)))
@@ -2627,6 +2647,15 @@ def c19_lines(r, n, toks):
     for arr in ([0, 1, 2, 3, 0], [0, 1, 0, 2, 3], [3, 2, 1, 0, 3], [1, 1, 2, 3, 4], [0, 1, 2, 0, 1], [2, 0, 2, 1, 2], [0, 1, 0], [4, 3, 4, 2]):
         for fwd in (int_fwd(U[1]), cctp_fwd(domain=0)):
             errs.append(orb_pkt("recv", 10 ** 6, fwd, [fee_action([(U[i], r.choice("ab"), 10 + 7 * j) for j, i in enumerate(arr)])]))
+    # every spelling of the paths the parser's pre-checks walk (both oneof members, null elements)
+    for m in scen._camel_combo_memos():
+        errs.append(pkt_line("recv", ftpd("transfer/channel-7/uusdc", 100000, ORB, m)))
+    # a fee computation that fails half way (the running total overflows after a valid entry), then ordinary fee payments: nothing of the
+    # failed computation may show up later
+    for _ in range(3):
+        errs.append(orb_pkt("recv", 10 ** 6, int_fwd(U[1]), [fee_action([(U[5], "a", 50), (U[6], "a", 2 ** 256 - 1)])]))
+        errs.append(orb_pkt("recv", 1000, int_fwd(U[1]), [fee_action([(U[2], "b", 100)])]))
+        errs.append(orb_pkt("recv", 1000, cctp_fwd(domain=0), [fee_action([(U[3], "a", 10)])]))
     both = "{\"orbiter\":{\"pre_actions\":[{\"id\":\"ACTION_FEE\",\"attributes\":{\"@type\":\"" + scen.FEE_URL + "\",\"fees_info\":[{\"recipient\":\"" + U[0] + "\",\"basis_points\":{\"value\":100},\"amount\":{\"value\":\"7\"}}]}}],\"forwarding\":" + _json.dumps(int_fwd(U[1])) + "}}"
     out = lines
     errs = r.shuffle(errs)
@@ -2637,6 +2666,9 @@ def c19_lines(r, n, toks):
             out.append(errs[k])
             k += 1
     out += errs[k:]
+    for _ in range(2):
+        out.append(orb_pkt("recv", 10 ** 6, int_fwd(U[1]), [fee_action([(U[5], "a", 50), (U[6], "a", 2 ** 256 - 1)])]))
+        out.append(orb_pkt("recv", 1000, int_fwd(U[1]), [fee_action([(U[2], "b", 100)])]))
     out.append("export")
     # the recorded both-oneof memo, as transfers (its effect is on balances); kept last so that nothing follows it
     for _ in range(6):
